@@ -6,7 +6,8 @@
 (* with the projection of the real metadata stores.                         *)
 EXTENDS Meta, Json, IOUtils
 
-CONSTANTS MaxLen, MaxBundles, OutFile, WithCrash, WithRepoOps, WithSquash
+CONSTANTS MaxLen, MaxBundles, OutFile, WithCrash, WithRepoOps, WithSquash,
+          Ops   \* enabled operation families: subset of {"label", "delete", "diff", "download", "keys", "update"}
 VARIABLES hist, stage
 
 gvars == <<mvars, hist, stage>>
@@ -41,7 +42,8 @@ Log(r) == hist' = Append(hist, r @@ [post |-> Post])
 
 \* trees: every subset of paths with every content assignment is too many to
 \* enumerate per step; a random tree per step keeps branching at one
-RandTree == LET ps == R(SUBSET Paths)
+RandSubset(S) == {x \in S : R(BOOLEAN)}
+RandTree == LET ps == RandSubset(Paths)
                 cs == [p \in Paths |-> R(Contents)]
             IN [p \in ps |-> cs[p]]
 TreeArg(t) == {[p |-> q.p, c |-> t[q], gen |-> q.gen] : q \in DOMAIN t}
@@ -101,6 +103,27 @@ GSquash(r, n, mode) ==
           \* leftovers of interrupted uploads: the property leaves their fate open
           leftovers |-> {b \in Ids : InRepo(b, r) /\ Leftover(b)}])
 
+\* upload of an explicit key list: repeated keys count once, generated paths are skipped,
+\* a key that is not in the source fails the upload unless missing keys are skipped
+SeqSet(q) == {q[i] : i \in DOMAIN q}
+GUploadKeys(r, t, keys, skip) ==
+  /\ Len(bun) < MaxBundles /\ r \in repos
+  /\ LET wanted == {k \in SeqSet(keys) : ~k.gen}
+         missing == wanted \ DOMAIN t
+         ok == missing = {} \/ skip
+         sub == [p \in wanted \cap DOMAIN t |-> t[p]]
+     IN /\ bun' = Append(bun, IF ok THEN NewBundle(r, sub, 0, CeilDiv(Cardinality(DOMAIN sub), E), TRUE)
+                                    ELSE NewBundle(r, sub, 0, 0, FALSE))
+        /\ UNCHANGED <<repos, labels>>
+        /\ Log([op |-> "uploadkeys", repo |-> r, tree |-> TreeArg(t), keys |-> [i \in DOMAIN keys |-> keys[i].p],
+                skip |-> skip, id |-> Len(bun) + 1, res |-> IF ok THEN "ok" ELSE "error"])
+
+\* update a local copy of bundle a to bundle b: the directory becomes b
+GUpdate(a, b) ==
+  /\ a \in Ids /\ b \in Ids /\ Visible(a) /\ Visible(b) /\ bun[a].repo \in repos /\ bun[b].repo = bun[a].repo
+  /\ UNCHANGED mvars
+  /\ Log([op |-> "update", a |-> a, b |-> b, from |-> TreeJ(bun[a].tree), files |-> TreeJ(bun[b].tree)])
+
 \* observations that do not change the state
 GDiff(a, b) ==
   /\ a \in Ids /\ b \in Ids /\ Visible(a) /\ Visible(b) /\ bun[a].repo \in repos /\ bun[b].repo \in repos
@@ -118,19 +141,23 @@ GDownload(b, sel) ==
 \* RandomElement is re-evaluated at every occurrence of the expression: bind each
 \* random choice once with \E x \in {R(..)}
 GStep ==
-  \/ \E r \in Repos : GCreateRepo(r)
+  \/ \E r \in {R(Repos)} : GCreateRepo(r)
   \/ \E r \in repos, i \in 1..3 : \E t \in {RandTree}, k \in {R(Bulks)} : GUpload(r, t, k)
   \/ \E r \in repos : \E j \in 0..2 : \E t \in {RandTree}, k \in {R(Bulks)} : GUploadCrash(r, t, k, j)
   \/ \E r \in repos : \E t \in {RandTree}, k \in {R(Bulks)} : GUploadCrashAfterDesc(r, t, k)
-  \/ \E r \in repos : \E b \in VisibleIn(r) : \E n \in {R(Labels)} : GSetLabel(r, n, b)
-  \/ \E r \in repos : \E n \in {R(Labels)} : GDeleteLabel(r, n)
-  \/ \E r \in repos : \E b \in VisibleIn(r) : GDeleteBundle(r, b)
+  \/ "keys" \in Ops /\ \E r \in repos, i \in 1..2 : \E t \in {RandTree}, skip \in {R(BOOLEAN)} :
+        \E keys \in {[j \in 1..R(0..4) |-> R(Paths)]} : GUploadKeys(r, t, keys, skip)
+  \/ "label" \in Ops /\ \E r \in repos, i \in 1..2 : \E b \in {R(VisibleIn(r) \cup {0})} : \E n \in {R(Labels)} :
+        b # 0 /\ GSetLabel(r, n, b)
+  \/ "label" \in Ops /\ \E r \in repos : \E n \in {R(Labels)} : GDeleteLabel(r, n)
+  \/ "delete" \in Ops /\ \E r \in repos : \E b \in {R(VisibleIn(r) \cup {0})} : b # 0 /\ GDeleteBundle(r, b)
   \/ \E r \in repos : GDeleteRepo(r)
-  \/ \E r \in repos : \E new \in Repos \ repos : GRenameRepo(r, new)
-  \/ \E r \in repos : \E ps \in {R(SUBSET {q \in Paths : ~q.gen})} : GDeleteEntries(r, ps)
-  \/ \E r \in repos : \E n \in 1..3 : \E m \in {R({"none", "tags", "semver"})} : GSquash(r, n, m)
-  \/ \E a \in Ids, b \in Ids : GDiff(a, b)
-  \/ \E b \in Ids : \E sel \in {R(SUBSET Paths)} : GDownload(b, sel)
+  \/ \E r \in repos : \E new \in {R(Repos)} : GRenameRepo(r, new)
+  \/ \E r \in repos : \E ps \in {RandSubset({q \in Paths : ~q.gen})} : GDeleteEntries(r, ps)
+  \/ \E r \in repos : \E n \in {R(1..3)} : \E m \in {R({"none", "tags", "semver"})} : GSquash(r, n, m)
+  \/ "diff" \in Ops /\ \E a \in {R(Ids \cup {0})}, b \in {R(Ids \cup {0})} : GDiff(a, b)
+  \/ "update" \in Ops /\ \E i \in 1..2 : \E a \in {R(Ids \cup {0})}, b \in {R(Ids \cup {0})} : GUpdate(a, b)
+  \/ "download" \in Ops /\ \E b \in {R(Ids \cup {0})} : \E sel \in {RandSubset(Paths)} : GDownload(b, sel)
 
 GNext == /\ stage = "run"
          /\ IF Len(hist) < MaxLen
